@@ -37,7 +37,9 @@ Proof.
         -- constructor; [apply Fin, Hst|]. constructor; [exact Logic.I|apply IH; exact Logic.I].
         -- destruct (index_of (chunk_tag_name chunk) cc 0).
            ++ apply IH. destruct Hst as [g' ->]. exists (OSrc chunk :: g'). reflexivity.
-           ++ apply IH. destruct Hst as [g' ->]. eexists. rewrite !app_assoc. reflexivity.
+           ++ destruct (mem_str _ Tables.empty_tags).
+              { apply IH. destruct Hst as [g' ->]. exists (OSrc chunk :: g'). reflexivity. }
+              apply IH. destruct Hst as [g' ->]. eexists. rewrite !app_assoc. reflexivity.
       * constructor; [exact Logic.I|apply IH; exact Logic.I].
     + destruct (is_block_name (chunk_tag_name chunk)).
       * destruct st as [[g cc]|].
@@ -68,7 +70,7 @@ Proof.
     destruct (second_is_slash chunk).
     + destruct st as [[g cc]|].
       * destruct (is_block_name _); [constructor; [exact Logic.I|constructor; [exact E|apply IH]]|].
-        destruct (index_of _ cc 0); apply IH.
+        destruct (index_of _ cc 0); [|destruct (mem_str _ Tables.empty_tags)]; apply IH.
       * constructor; [exact E|apply IH].
     + destruct (is_block_name _).
       * destruct st as [[g cc]|]; [constructor; [exact Logic.I|constructor; [exact E|apply IH]]|constructor; [exact E|apply IH]].
